@@ -215,3 +215,36 @@ Qed.
 Theorem one_by_one (p : positive) (x a d : Q) :
   0 < x /\ x ^ (Zpos p) * (a + d) == 1 -> x ^ (Zpos p) * (a + d) - 1 == 0.
 Proof. intros [_ H]. rewrite H. ring. Qed.
+
+(* ---------- eigh variant: exact residual identity (non-commutative) ---------- *)
+(* X = U f(E) U^T with f(E)^p E = I.  If the computed decomposition has residual R, i.e.
+   U^T Ad U = E + R with U orthogonal, then  X^p Ad = I + U f(E)^p R U^T : the error of the returned
+   root is the eigen-residual R (which is what the routine reports, max|R|) amplified by
+   f(E)^p = E^-1, i.e. by 1/lambda_min(Ad) — the regularised condition number in the slack. *)
+Section EighResidual.
+  Variable M : Type.
+  Variables (mul add : M -> M -> M) (one : M).
+  Hypothesis mul_assoc : forall a b c, mul a (mul b c) = mul (mul a b) c.
+  Hypothesis mul_1_l : forall a, mul one a = a.
+  Hypothesis mul_1_r : forall a, mul a one = a.
+  Hypothesis distr_l : forall a b c, mul a (add b c) = add (mul a b) (mul a c).
+  Hypothesis distr_r : forall a b c, mul (add a b) c = add (mul a c) (mul b c).
+
+  Theorem eigh_residual_identity (U Ut E R Fp Ad Xp : M) :
+    mul U Ut = one -> mul Ut U = one ->
+    mul Fp E = one ->
+    mul (mul Ut Ad) U = add E R ->
+    Xp = mul (mul U Fp) Ut ->
+    mul Xp Ad = add one (mul (mul (mul U Fp) R) Ut).
+  Proof.
+    intros HUUt HUtU HFE HT HX.
+    assert (HAd : Ad = mul (mul U (add E R)) Ut).
+    { rewrite <- HT. rewrite !mul_assoc. rewrite HUUt, mul_1_l.
+      rewrite <- (mul_assoc Ad U Ut). rewrite HUUt, mul_1_r. reflexivity. }
+    rewrite HX. rewrite HAd at 1.
+    rewrite !mul_assoc.
+    rewrite <- (mul_assoc (mul U Fp) Ut U). rewrite HUtU, mul_1_r.
+    rewrite <- (mul_assoc U Fp (add E R)). rewrite distr_l, HFE.
+    rewrite distr_l, mul_1_r. rewrite distr_r. rewrite HUUt. rewrite !mul_assoc. reflexivity.
+  Qed.
+End EighResidual.
